@@ -594,6 +594,58 @@ func TestFrames(t *testing.T) {
 				}
 			}
 		}
+		// (3b) sequences of declared lengths on ONE channel: the receive buffer a header channel keeps between records grows
+		// and shrinks with them; whatever it does, each record (and a last one cut short) comes out as the format says
+		{
+			seqs := [][]int{{2400000, 1100000, 7}, {5 << 20, 1200000, 3, 2 << 20}, {600 << 10, 100, 700 << 10, 0, 40 << 10}, {3 << 20, 700 << 10, 1 << 20, 1<<20 + 1, 5},
+				{9 << 20, 2 << 20, 600 << 10, 140 << 10, 30 << 10, 7 << 10}, {4<<20 + 1, 1 << 20, 1<<20 + 1}}
+			for si, seq := range seqs {
+				if si%nshard != shard {
+					continue
+				}
+				for _, short := range []bool{false, true} { // short: the last payload lacks one byte
+					for _, fr := range headerFramings() {
+						var data []byte
+						var want [][]byte
+						for k, n := range seq {
+							rec := bytes.Repeat([]byte{byte('a' + k)}, n)
+							data = append(data, []byte(fmt.Sprintf("Content-Length: %d\r\n", n))...)
+							if fr.mime != "" {
+								data = append(data, []byte("Content-Type: "+fr.mime+"\r\n")...)
+							}
+							data = append(data, '\r', '\n')
+							if short && k == len(seq)-1 && n > 0 {
+								data = append(data, rec[:n-1]...)
+							} else {
+								data = append(data, rec...)
+								want = append(want, rec)
+							}
+						}
+						rd := &chunkReader{data: data, eofWith: si%2 == 0}
+						o, p := drive(fr.f(rd, nopWC{io.Discard}), len(seq)+2)
+						res.Evaluations++
+						what := fmt.Sprintf("records of %v bytes on one channel (last one short: %v)", seq, short)
+						if p != nil {
+							res.add(violation{"C12", fr.name, what, nil, false, fmt.Sprintf("panic: %v", p)})
+							continue
+						}
+						for k, w := range want {
+							if k >= len(o) || (o[k].err != nil && !isCT(o[k].err)) || !bytes.Equal(o[k].data, w) {
+								got := "nothing"
+								if k < len(o) {
+									got = fmt.Sprintf("%d bytes (first %.16q), err %v", len(o[k].data), o[k].data, o[k].err)
+								}
+								res.add(violation{"C12", fr.name, what, nil, false, fmt.Sprintf("Recv #%d: %s; want the %d-byte record", k+1, got, len(w))})
+								break
+							}
+						}
+						if len(o) > len(want) && (o[len(want)].err == nil || isCT(o[len(want)].err)) {
+							res.add(violation{"C12", fr.name, what, nil, false, fmt.Sprintf("Recv #%d returned a %d-byte record where the stream has none", len(want)+1, len(o[len(want)].data))})
+						}
+					}
+				}
+			}
+		}
 		// (4) byte-level mutations of valid streams: no panic, terminates, nothing fabricated
 		nm := 300
 		if thorough {
